@@ -10,6 +10,8 @@ export GOFLAGS=-mod=mod GOPROXY=off
 for p in "$@"; do
   for d in /verif/seeded/$p-*; do
     id=$(basename $d); wt=/tmp/rs_$$_$id
+    # ONLY="<id> <id> …" restricts the run to those changes
+    if [ -n "${ONLY:-}" ]; then case " $ONLY " in *" $id "*) ;; *) continue;; esac; fi
     git -C /repo worktree add -q --detach "$wt" HEAD || continue
     if ! git -C "$wt" apply "$d/patch.diff" 2>/dev/null; then echo "RESEED $id $p patch-does-not-apply"; git -C /repo worktree remove --force "$wt"; continue; fi
     if ! (cd "$wt" && go build ./... && go build -tags verif ./...) >/dev/null 2>&1; then echo "RESEED $id $p does-not-build"; git -C /repo worktree remove --force "$wt"; continue; fi
